@@ -58,6 +58,12 @@ pub fn relative(from: &str, to: &str) -> String {
     rel.join("/")
 }
 
+/// Directory names of the form `d[NN]` are literal names: in an include line (a pattern) their `[`
+/// is written `[[]`.
+fn esc(spelled: &str) -> String {
+    spelled.replace("d[", "d[[]")
+}
+
 impl Tree {
     fn feature(&mut self, f: &'static str) {
         if !self.features.contains(&f) {
@@ -109,16 +115,28 @@ impl Tree {
                     let dot = rng.chance(1, 5);
                     let child = join(&dir, &format!("{}p{:02}.ledger", if dot { "." } else { "" }, n));
                     self.feature(if dot { "literal-dot-file" } else { "literal-same-dir" });
-                    self.append(file, &format!("include {}\n\n", relative(file, &child)));
+                    self.append(file, &format!("include {}\n\n", esc(&relative(file, &child))));
                     self.build(rng, entries, i, i + k, &child, depth + 1, in_glob_dir);
                 }
                 1 => {
                     // literal include into a sub-directory (name with a space now and then)
-                    let sub = if rng.chance(1, 4) { format!("d {:02}", n) } else { format!("d{:02}", n) };
+                    // a directory name may contain characters that are special in a pattern; the include
+                    // that names it escapes them (`[[]`), and includes written *inside* such a directory
+                    // are relative to it as it is
+                    let sub = match rng.below(8) {
+                        0 | 1 => format!("d {:02}", n),
+                        2 => format!("d[{:02}]", n),
+                        _ => format!("d{:02}", n),
+                    };
                     let dot = rng.chance(1, 6);
                     let child = join(&join(&dir, &sub), &format!("{}p{:02}.ledger", if dot { "." } else { "" }, n));
                     self.feature(if dot { "literal-dot-file-in-sub-dir" } else { "literal-sub-dir" });
-                    self.append(file, &format!("include {}\n\n", relative(file, &child)));
+                    if sub.contains('[') {
+                        self.feature("directory-name-with-pattern-characters");
+                    }
+                    // (only the part below the including file's directory is written, so only this
+                    // directory name needs escaping here)
+                    self.append(file, &format!("include {}\n\n", esc(&relative(file, &child))));
                     self.build(rng, entries, i, i + k, &child, depth + 1, in_glob_dir);
                 }
                 2 if !dir.is_empty() => {
@@ -126,7 +144,7 @@ impl Tree {
                     let parent = dir_of(&dir);
                     let child = if rng.chance(1, 2) { join(&parent, &format!("u{:02}.ledger", n)) } else { join(&join(&parent, &format!("s{:02}", n)), "x.ledger") };
                     self.feature("literal-parent-dir");
-                    self.append(file, &format!("include {}\n\n", relative(file, &child)));
+                    self.append(file, &format!("include {}\n\n", esc(&relative(file, &child))));
                     self.build(rng, entries, i, i + k, &child, depth + 1, in_glob_dir);
                 }
                 3 => {
@@ -140,7 +158,7 @@ impl Tree {
                         self.feature("literal-dot-slash");
                         format!("./{}", relative(file, &child))
                     };
-                    self.append(file, &format!("include {}\n\n", spelled));
+                    self.append(file, &format!("include {}\n\n", esc(&spelled)));
                     self.build(rng, entries, i, i + k, &child, depth + 1, in_glob_dir);
                 }
                 6 => {
@@ -148,7 +166,7 @@ impl Tree {
                     // tree is materialised)
                     let child = join(&dir, &format!("abs{:02}.ledger", n));
                     self.feature("literal-absolute-path");
-                    self.append(file, &format!("include {}/{}\n\n", BASE_TOKEN, child));
+                    self.append(file, &format!("include {}/{}\n\n", BASE_TOKEN, esc(&child)));
                     self.build(rng, entries, i, i + k, &child, depth + 1, in_glob_dir);
                 }
                 4 => {
@@ -200,7 +218,7 @@ impl Tree {
                             self.files.insert(join(&gdir, name), DECOY_TEXT.to_string());
                         }
                     }
-                    self.append(file, &format!("include {}\n\n", relative(file, &join(&gdir, &pat))));
+                    self.append(file, &format!("include {}\n\n", esc(&relative(file, &join(&gdir, &pat)))));
                 }
                 _ => {
                     // glob with the wildcard in a directory component: directories sort one way,
@@ -236,7 +254,7 @@ impl Tree {
                     } else {
                         "20??/*.ledger"
                     };
-                    self.append(file, &format!("include {}\n\n", relative(file, &join(&gdir, pat))));
+                    self.append(file, &format!("include {}\n\n", esc(&relative(file, &join(&gdir, pat)))));
                 }
             }
             i += k;
@@ -261,7 +279,7 @@ impl Tree {
         let shared = "shared/common.ledger".to_string();
         for k in &ks {
             let file = self.placement[*k].clone();
-            let inc = format!("include {}\n", relative(&file, &shared));
+            let inc = format!("include {}\n", esc(&relative(&file, &shared)));
             let Some(content) = self.files.get_mut(&file) else { return false };
             // same number of lines, so the line numbers of the other entries do not move
             *content = content.replacen(text, &inc, 1);
@@ -293,7 +311,7 @@ impl Tree {
             }
             self.files.insert(empty.clone(), if rng.chance(1, 2) { String::new() } else { "\n  \n\t\n".to_string() });
             let content = self.files.get_mut(&file).unwrap();
-            *content = format!("include {}\n\n{}", relative(&file, &empty), content);
+            *content = format!("include {}\n\n{}", esc(&relative(&file, &empty)), content);
             for k in 0..self.placement.len() {
                 if self.placement[k] == file {
                     self.entry_line[k] += 2;
